@@ -30,6 +30,13 @@ def run(ctx):
     r3_discipline(ctx)
     r4_verbatim(ctx, it)
     shared.whole_cell_consumption(ctx, 'R5')
+    # every occurrence of a cell is parsed (and, when malformed, reported) on its own; a malformed cell is never a null cell
+    from . import c18
+    from .exporter_facts import check_nullish_tables
+    ctx.alias = {'R7': 'R7'}
+    c18.r7_document_dispatch(ctx)
+    ctx.alias = {}
+    check_nullish_tables(ctx, 'R8')
     from .. import regen
     regen.check(ctx, 'R6')
 
